@@ -22,7 +22,7 @@ from ..astutil import call_name, calls, dotted, names_in, param_names, stmts, wa
 from ..cfg import CFG
 from ..core import AnalysisError, Mutant
 from .C08 import AFFINE_GROUPS, LINEAR_GROUPS, fill_check
-from ..exprnorm import has_code
+from ..exprnorm import has_code, same_expr
 
 EXPLANATION = (
     "Stencil agreement of the banded and X-drop fill functions with the traceback, linear-form "
@@ -131,6 +131,28 @@ def run(ctx):
            has_code(ab, "lower_diag = max(lower_diag, -len(seq1) + 1)") and has_code(ab, "upper_diag = min(upper_diag, len(seq2) - 1)")
            and has_code(ab, "lower_diag, upper_diag = (min(band), max(band))"),
            "the band is the pair (min, max) of the given diagonals clipped to the table", ab.lineno)
+    # the band that is used is the band of the sequences AS THEY ARE ALIGNED: min / max are taken after the swap has negated it
+    top_ = list(ab.body)
+    k_swap = next((k for k, st in enumerate(top_) if st is swap[0]), None)
+    k_band = next((k for k, st in enumerate(top_) if isinstance(st, ast.Assign) and has_code(st, "lower_diag, upper_diag = (min(band), max(band))")), None)
+    ctx.ob("R3.swap-pairing", BD, "align_banded", "lower_diag, upper_diag = min(band), max(band) after the swap",
+           k_swap is not None and k_band is not None and k_band > k_swap
+           and not any(isinstance(x, ast.Name) and x.id in ("lower_diag", "upper_diag") and isinstance(x.ctx, ast.Store)
+                       for st in top_[:k_band] for x in ast.walk(st)),
+           "when the sequences are swapped the band is negated: diagonals taken from the band before the swap are those of the caller's "
+           "order and select the mirrored band", ab.lineno)
+    # both guard COLUMNS of every table hold the sentinel: a path cannot enter the band from outside its lower or its upper edge
+    guard_cols = {}
+    for st in ast.walk(ab):
+        if isinstance(st, ast.Assign) and len(st.targets) == 1 and isinstance(st.targets[0], ast.Subscript) and isinstance(st.targets[0].value, ast.Name) \
+                and same_expr(st.value, "neg_inf") and isinstance(st.targets[0].slice, ast.Tuple) and len(st.targets[0].slice.elts) == 2:
+            r_, c_ = st.targets[0].slice.elts
+            if isinstance(r_, ast.Slice) and r_.lower is None and r_.upper is None and r_.step is None:
+                guard_cols.setdefault(st.targets[0].value.id, set()).add(ast.unparse(c_))
+    ctx.ob("R3.band-guard-columns", BD, "align_banded", f"{sorted((k, sorted(v)) for k, v in guard_cols.items())}",
+           all(guard_cols.get(t_, set()) >= {"0", "-1"} for t_ in ("m_table", "score_table")),
+           "column 0 and column -1 of the banded tables lie outside the band: both must hold the sentinel, or a path starts for free at "
+           "the band edge that was left at 0", ab.lineno)
     ft_calls = [c for c in calls(ab) if call_name(c) == "follow_trace"]
     def _kw(c, name):
         return next((ast.unparse(k.value) for k in c.keywords if k.arg == name), None)
@@ -288,6 +310,16 @@ def run(ctx):
         ctx.ob("R5.direction-control", LU, "align_local_ungapped", f"{flag} extension on ({slices})",
                bool(blk) and ast.unparse(blk[0]).count(slices) == 2,
                f"the {flag} extension must run under `{flag}` on the right slices in both code paths", au.lineno)
+    # the upstream extension slices code[start - 1::-1] of BOTH sequences: it needs both starts to be positive
+    from ..facts import conjuncts as _cj
+    from ..exprnorm import canon as _cn
+    up_blk = [st for st in stmts(au) if isinstance(st, ast.If) and "upstream" in names_in(st.test) and "_seed_extend" in ast.unparse(st)]
+    got_up = sorted(repr(_cn(c_)) for c_ in _cj(up_blk[0].test)) if up_blk else []
+    want_up = sorted(repr(_cn(ast.parse(t_, mode="eval").body)) for t_ in ("upstream", "seq1_start > 0", "seq2_start > 0"))
+    ctx.ob("R2.upstream-needs-both-starts", LU, "align_local_ungapped", "if upstream and seq1_start > 0 and seq2_start > 0",
+           got_up == want_up,
+           "with a seed at index 0 of one sequence `code[start - 1::-1]` is the whole reversed sequence: the upstream extension must not run "
+           "unless both starts are positive", au.lineno)
     ctx.ob("R5.same-score-both-modes", LU, "align_local_ungapped", "return total_score / Alignment(..., total_score)",
            has_code(au, "return total_score") and has_code(au, "Alignment([seq1, seq2], trace, total_score)")
            and seed_pair_dominates(au),
@@ -341,6 +373,15 @@ def extra_rules(ctx):
            any(_same(st.test, want_t) for st in offs),
            f"the upstream extension slices code[start - 1::-1] for {neg_slices}: it has to be switched off when EITHER start is 0 "
            "(with `and`, a seed at index 0 of one sequence aligns against the whole reversed other sequence)", lg.lineno)
+    # ---- gapped seed extension: the index range of antidiagonal k follows from the ranges of k-1 (moved by a gap: +1 at the upper end) and
+    # k-2 (moved by a match: +1 at both ends)
+    for q in ("_fill_align_table", "_fill_align_table_affine"):
+        ff = ctx.src(LG).func(q)
+        ctx.ob("R3.antidiagonal-range", LG, q, "i_min = min(i_min(k-1), i_min(k-2) + 1); i_max = max(i_max(k-1) + 1, i_max(k-2) + 1), clipped to the sequences",
+               has_code(ff, "i_min = _min(i_min_k_1, i_min_k_2 + 1)") and has_code(ff, "i_max = _max(i_max_k_1 + 1, i_max_k_2 + 1)")
+               and has_code(ff, "i_min = _max(i_min, k - code2.shape[0])") and has_code(ff, "i_max = _min(i_max, code1.shape[0])"),
+               "a cell on the diagonal of the best cell two antidiagonals back must stay in range: without the `+ 1` the extension stops although "
+               "the score never dropped", ff.lineno)
     # ---- gapped seed extension, table fill: a cell that was pruned (score 0 = never reached from the seed) is not extended
     # by a substitution score (a positive score would otherwise start a new path away from the seed)
     for q, preds in (("_fill_align_table", ["from_diag"]), ("_fill_align_table_affine", ["mm_score", "g1m_score", "g2m_score"])):
